@@ -42,6 +42,21 @@ fn main() {
         println!("ticks: {}", out.ticks);
         return;
     }
+    if cmd == "tc" {
+        use starlark::typing::AstModuleTypecheck;
+        let src = std::fs::read_to_string(&args[2]).unwrap();
+        let ast = sl::parse("tc.star", &src, &sl::dialect_all()).unwrap();
+        let (errors, tm, iface, approx) = ast.typecheck(sl::globals(), &Default::default());
+        println!("IFACE {iface:?}");
+        for e in errors {
+            println!("ERROR {e}");
+        }
+        for a in approx {
+            println!("APPROX {a}");
+        }
+        println!("{tm}");
+        return;
+    }
     if cmd == "det-child" {
         std::process::exit(props::c14::child_main(&args[2], args[3].parse().unwrap_or(0)));
     }
